@@ -16,7 +16,7 @@ for name in sorted(os.listdir(sd)):
     pid = meta.get("property") or name.split("-")[0]
     if not want or any(name.startswith(w) for w in want):
         ids = [pid] + [x for x in meta.get("also_checked_by", []) if x != pid]
-        p = subprocess.run([sys.executable, os.path.join(ROOT, "tools", "seedtest.py"), pf, ",".join(ids)], capture_output=True, text=True)
+        p = subprocess.run([sys.executable, os.path.join(ROOT, "tools", "seedtest.py"), "--keep-replay", d, pf, ",".join(ids)], capture_output=True, text=True)
         res = {}
         for line in p.stdout.splitlines():
             if line.startswith("RESULT "):
